@@ -440,6 +440,24 @@ pub fn scenarios(quick: bool, rng: &mut Rng) -> Vec<Scn> {
             let last = tl.last().unwrap().0;
             v.push(Scn { name: format!("{} read rate: 60 B/s trickle completes in {:.1}s (< max 4s)", role.name(), (last - 300) as f64 / 1000.0), role, cfg: rr(4), raw: false, busy: false, client_send_ack_ms: None, timeline: tl, observe_ms: last + 1500, expect: Expect::Alive, bp_first: false, live_gap: None });
         }
+        // two slow (but fast enough) frames in a row: the accounting of the first one must not
+        // leak into the second, shorter one
+        {
+            let f1 = refcodec::encode(ver, &R::Subscribe { pid: 8, props: vec![], filters: (0..3).map(|i| (format!("ok/{i}/{}", "y".repeat(40)), 0u8)).collect() }).unwrap();
+            let f2 = refcodec::encode(ver, &R::Subscribe { pid: 9, props: vec![], filters: (0..2).map(|i| (format!("ok/{i}/{}", "z".repeat(36)), 0u8)).collect() }).unwrap();
+            let mut tl = Vec::new();
+            let c1: Vec<&[u8]> = f1.chunks(15).collect();
+            for (j, ch) in c1.iter().enumerate() {
+                tl.push((300 + j as u64 * 250, Act::Send { bytes: ch.to_vec(), completes: j + 1 == c1.len() }));
+            }
+            let t2 = tl.last().unwrap().0 + 700;
+            let c2: Vec<&[u8]> = f2.chunks(25).collect();
+            for (j, ch) in c2.iter().enumerate() {
+                tl.push((t2 + j as u64 * 600, Act::Send { bytes: ch.to_vec(), completes: j + 1 == c2.len() }));
+            }
+            let last = tl.last().unwrap().0;
+            v.push(Scn { name: format!("{} read rate: a {} B frame at 60 B/s, then a {} B frame at 40 B/s", role.name(), f1.len(), f2.len()), role, cfg: rr(8), raw: false, busy: false, client_send_ack_ms: None, timeline: tl, observe_ms: last + 1500, expect: Expect::Alive, bp_first: false, live_gap: None });
+        }
         // too slow from the start: 4 bytes per second
         {
             let mut tl = Vec::new();
@@ -615,6 +633,37 @@ pub fn run_scns(rep: &Report, opts: &Opts, scns: &[Scn], part: Option<&str>) -> 
         pool::After::RetireThread
     });
     (timings.into_inner().unwrap(), late.into_inner().unwrap())
+}
+
+/// replay of one named scenario on behalf of check `prop` (C20 itself or a check that borrows scenarios)
+pub fn replay_named(prop: &str, path: &std::path::Path, seed: u64, name: &str) -> i32 {
+    let mut rng = Rng::for_case(seed, "c20", 0);
+    let all = scenarios(false, &mut rng);
+    let Some(s) = all.iter().find(|s| s.name == name) else {
+        println!("scenario {name:?} not found");
+        return 2;
+    };
+    match exec_with(run_scn(s), 50_000_000, Duration::from_secs(120)) {
+        Run::Done(o, _) => {
+            for l in &o.log {
+                println!("{l}");
+            }
+            println!("end {:?} pings {:?} violations {:?}", o.end_s, o.pings, o.violations);
+            if o.inconclusive.is_some() {
+                2
+            } else if o.violations.is_empty() {
+                0
+            } else {
+                println!("VIOLATION property={prop} replay={}", path.display());
+                1
+            }
+        }
+        Run::Watchdog => 2,
+        _ => {
+            println!("VIOLATION property={prop} replay={}", path.display());
+            1
+        }
+    }
 }
 
 pub fn run(opts: &Opts) -> i32 {
